@@ -536,8 +536,13 @@ func (w *c30World) query(stream, who string) {
 	if w.inPoll && who != "poller" {
 		r.Probe("reader_during_poll")
 	}
+	// the query contains scheduling points (its lock, and the deferred unlock after the result is
+	// computed): the "returned what is held" comparison is only meaningful when the held state did
+	// not change while the call was in progress
+	heldLatest0, held0 := w.heldState()
 	latest, got, _, err := w.ct.GetLatestBlockData(from, to, spec)
 	heldLatest, held := w.heldState()
+	heldStable := heldLatest0 == heldLatest && c30Fmt(held0) == c30Fmt(held)
 	if err != nil {
 		r.Op("query", "err")
 		r.Logf("%s: GetLatestBlockData(%d,%d,%d) -> error", who, from, to, spec)
@@ -586,6 +591,10 @@ func (w *c30World) query(stream, who string) {
 		return
 	}
 	// what was returned is what the tracker holds
+	if !heldStable {
+		r.Probe("held_state_changed_during_query")
+		return
+	}
 	r.OracleEvals++
 	if latest != heldLatest {
 		w.viol("query-latest-differs-from-held", sig, "returned latest %d, tracker holds latest %d", latest, heldLatest)
@@ -652,11 +661,12 @@ func (w *c30World) reader(name string, n int) {
 			return
 		}
 		if r.Chance("rd", 1, 4) {
+			hl0, _ := w.heldState()
 			l, _ := w.ct.GetLatestBlockNum()
 			hl, _ := w.heldState()
 			r.OracleEvals++
 			r.Logf("%s: GetLatestBlockNum -> %d", name, l)
-			if l != hl {
+			if hl0 == hl && l != hl { // (held latest unchanged while the call was in progress)
 				w.viol("query-latest-differs-from-held", "GetLatestBlockNum", "GetLatestBlockNum returned %d, tracker holds latest %d", l, hl)
 				return
 			}
